@@ -30,7 +30,7 @@ func keyValuePool(cfg *lib.Cfg, seed int64, n int) map[reflect.Type][]reflect.Va
 		pool[v.Type()] = append(pool[v.Type()], v)
 	}
 	for _, kind := range []lib.Kind{lib.KList, lib.KOrdered} {
-		for _, s := range findListSites(cfg, seed, kind, n) {
+		for _, s := range findListSitesOpt(cfg, seed, kind, n, true) {
 			for _, t := range s.tuples {
 				for _, p := range t.params {
 					add(p)
